@@ -284,3 +284,40 @@ def suffix_faults(case, rng):
         suf = bytes(rng.randrange(256) for _ in range(k))
         yield Case(case.t, case.d + suf, case.cc, case.enc, origin=case.origin, fault=dict(kind="suffix", bytes=suf.hex()),
                    sig=("suffix", case.t, case.cc, k, len(case.d)))
+
+
+def nested_pair_faults(case, ref, rng, limit=None, ks=(1, 5, 64)):
+    """Two cooperating size faults: a region and a region nested inside it both declare more (+k) than they hold."""
+    regs = [r for r in ref.regions if r.path is not None and r.max is not None]
+    by_path = {e.path: e for e in ref.events if e.value is not None}
+    pairs = []
+    for outer in regs:
+        for inner in regs:
+            if inner is outer or not (outer.start <= inner.start and inner.end <= outer.end):
+                continue
+            if inner.path in by_path and outer.path in by_path:
+                pairs.append((outer, inner))
+    # pairs whose inner region holds a structure (only those can fall short and be padded) go first
+    idx = {e.path: i for i, e in enumerate(ref.events)}
+
+    def structured(reg):
+        i = idx.get(reg.path)
+        return i is not None and i + 1 < len(ref.events) and not ref.events[i + 1].tname.startswith("list[")
+
+    rng.shuffle(pairs)
+    # ... and a faulty *middle* region (the outermost one stays a correct frame of reference) before a faulty message size
+    rank = {"param": 0, "auth": 0, "tpm2b": 1, "message": 2}
+    pairs.sort(key=lambda p: (not structured(p[1]), rank.get(p[0].kind, 3)))
+    if limit is not None:
+        pairs = pairs[:limit]
+    for outer, inner in pairs:
+        eo, ei = by_path[outer.path], by_path[inner.path]
+        for ko in ks:
+            for ki in ks:
+                d = patch(case.d, eo.span, eo.value + ko)
+                d = patch(d, ei.span, ei.value + ki) if d is not None else None
+                if d is None:
+                    continue
+                yield Case(case.t, d, case.cc, case.enc, origin=case.origin,
+                           fault=dict(kind="size-nested-pair", outer=R.pstr(eo.path), inner=R.pstr(ei.path), change=f"+{ko}/+{ki}"),
+                           sig=("size-pair", case.t, case.cc, R.pstr(eo.path), R.pstr(ei.path), ko, ki))
